@@ -7,8 +7,14 @@ the C06 round-trip theorems are about. `_token_chars` enters through its members
 Property theorems only (helper lemmas: Lemmas/PyFns_Http.lean, Lemmas/PyFns_Prelude.lean).
 -/
 import WzVerif.Gen.PyFns_Http
+import WzVerif.Gen.PyFns_HttpDict
+import WzVerif.Gen.PyFns_Internal
+import WzVerif.Lemmas.PyFns_HttpDict
 import WzVerif.Lemmas.PyFns_Http
+import WzVerif.Lemmas.PyFns_HttpList
 import WzVerif.Lemmas.Http
+import WzVerif.Lemmas.HttpEtag
+import WzVerif.Lemmas.HttpAge
 namespace Wz.Props.C06T
 open Wz Wz.Pre Wz.PyFnsHttp
 
@@ -88,6 +94,305 @@ theorem range_to_header_eq (units : List Char) (rs : List (Int × Option Int)) :
   simp only [range_to_header_loop_eq, List.nil_append, e, join_intercalate]
   simp
   rfl
+
+/-! ### comma lists, `key=value` lists, option headers, entity tags (translated in round 3) -/
+
+/-- The `for item in _parse_list_header(value)` loop of `parse_list_header`, as translated from the
+current source (the guard `len(item) >= 2 and item[0] == item[-1] == '"'`, the slice `item[1:-1]`, the
+append), never raises and appends to `result` every item with one pair of surrounding quotes removed
+(`unq` = the model's `stripDq?` or the item itself), for every list of items and every accumulator. -/
+theorem parse_list_header_loop_eq (items : List (List Char)) : ∀ acc : List (List Char),
+    Gen.PyFns_Http.parse_list_header.loop1 items acc = .fall (acc ++ items.map unq) := by
+  induction items with
+  | nil => intro acc; simp [Gen.PyFns_Http.parse_list_header.loop1]
+  | cons item rest ih =>
+    intro acc
+    unfold Gen.PyFns_Http.parse_list_header.loop1
+    simp only [ih]
+    have := dq_step item (fun v => (Pre.Loop.fall (acc ++ [v] ++ rest.map unq) : Pre.Loop (Except String (List Str)) (List Str))) (fun x => .ret (.error x))
+    simp at this ⊢
+    exact this
+
+/-- `parse_list_header(value)`, as translated from the current source (urllib's `parse_http_list`
+enters as C06's hand model `parseHttpList`), never raises (`item[0]` / `item[-1]` are only reached
+for an item of at least two characters) and returns exactly the model's `parseListHeader`, for
+every text. -/
+theorem parse_list_header_eq (v : List Char) :
+    Gen.PyFns_Http.parse_list_header v = .ok (Http.parseListHeader v) := by
+  unfold Gen.PyFns_Http.parse_list_header Http.parseListHeader
+  simp only [parse_list_header_loop_eq, List.nil_append]
+  rfl
+
+/-- `dump_header(iterable)` for a list of `str`, as translated from the current source (the
+`isinstance(iterable, dict)` test decided by the type, the comprehension over `quote_header_value`
+- itself translated, with `allow_token` taken from the default in the source -, the `", "` join),
+prints exactly the model's `dumpHeaderList`, for every list of texts. -/
+theorem dump_header_list_eq (items : List (List Char)) :
+    Gen.PyFns_Http.dump_header_list items = .ok (Http.dumpHeaderList items) := by
+  unfold Gen.PyFns_Http.dump_header_list Http.dumpHeaderList
+  have e : ([',', ' '] : Str) = ", ".toList := by decide
+  simp only [quote_header_value_eq, e, join_intercalate]
+
+/-- C06 `parseList_dump` on the translated definitions: parsing what the regenerated `dump_header`
+printed gives the items back, for every list of texts. -/
+theorem parse_list_dump_translated (items : List (List Char)) :
+    (Gen.PyFns_Http.dump_header_list items >>= Gen.PyFns_Http.parse_list_header) = .ok items := by
+  rw [dump_header_list_eq]
+  show Gen.PyFns_Http.parse_list_header _ = _
+  rw [parse_list_header_eq, Http.parseList_dump_any]
+
+/-- The `for key, value in iterable.items()` loop of `dump_header` (dict branch), as translated from
+the current source (`value is None` gives the bare key, `key[-1] == "*"` keeps the value unquoted,
+otherwise `quote_header_value`), appends the text of every item (`dictItemText`) or raises the
+IndexError of the first empty key with a value, for every list of pairs and every accumulator. -/
+theorem dump_header_dict_loop_eq (d : List (List Char × Option (List Char))) : ∀ acc : List (List Char),
+    Gen.PyFns_Http.dump_header_dict.loop1 d acc =
+      match d.mapM dictItemText with
+      | .ok items => .fall (acc ++ items)
+      | .error e => .ret (.error e) := by
+  induction d with
+  | nil => intro acc; simp [Gen.PyFns_Http.dump_header_dict.loop1]
+  | cons kv rest ih =>
+    intro acc
+    obtain ⟨key, value⟩ := kv
+    unfold Gen.PyFns_Http.dump_header_dict.loop1
+    simp only [ih, List.mapM_cons, dictItemText, quote_header_value_eq]
+    cases value with
+    | none =>
+      simp only []
+      cases h : rest.mapM dictItemText <;> simp [bind, Except.bind, pure, Except.pure]
+    | some v =>
+      simp only [kvText]
+      have := star_step key
+        (match rest.mapM dictItemText with
+          | .ok items => (Pre.Loop.fall (acc ++ [key ++ ['='] ++ v] ++ items) : Pre.Loop (Except String Str) (List Str))
+          | .error e => .ret (.error e))
+        (match rest.mapM dictItemText with
+          | .ok items => (Pre.Loop.fall (acc ++ [key ++ ['='] ++ Http.quoteHeaderValue v] ++ items) : Pre.Loop (Except String Str) (List Str))
+          | .error e => .ret (.error e))
+        (fun x => .ret (.error x))
+      refine Eq.trans this ?_
+      cases key.getLast? with
+      | none => simp [bind, Except.bind]
+      | some l =>
+        by_cases hl : l = '*' <;> cases h : rest.mapM dictItemText <;> simp [hl, bind, Except.bind, pure, Except.pure]
+
+/-- `dump_header(iterable)` for a dict with `str | None` values, as translated from the current
+source, prints - or raises IndexError for an empty key, exactly as - the model's `dumpHeaderDict`,
+for every dict (given as its item list). -/
+theorem dump_header_dict_eq (d : List (List Char × Option (List Char))) :
+    Gen.PyFns_Http.dump_header_dict d = Http.dumpHeaderDict d := by
+  rw [dumpHeaderDict_spec]
+  unfold Gen.PyFns_Http.dump_header_dict
+  simp only [Pre.dictItems, dump_header_dict_loop_eq, List.nil_append]
+  have e : ([',', ' '] : Str) = ", ".toList := by decide
+  cases h : d.mapM dictItemText with
+  | error x => simp [bind, Except.bind]
+  | ok items => simp only [bind, Except.bind, pure, Except.pure, e, join_intercalate]
+
+/-- The `for key, value in options.items()` loop of `dump_options_header`, as translated from the
+current source (`None` values skipped, `key[-1] == "*"`, `quote_header_value`), appends the model's
+`optionSegment` of every pair, for every list of pairs and every accumulator. -/
+theorem dump_options_header_loop_eq (d : List (List Char × Option (List Char))) : ∀ acc : List (List Char),
+    Gen.PyFns_Http.dump_options_header.loop1 d acc =
+      match d.mapM Http.optionSegment with
+      | .ok segs => .fall (acc ++ segs.filterMap id)
+      | .error e => .ret (.error e) := by
+  induction d with
+  | nil => intro acc; simp [Gen.PyFns_Http.dump_options_header.loop1]
+  | cons kv rest ih =>
+    intro acc
+    obtain ⟨key, value⟩ := kv
+    unfold Gen.PyFns_Http.dump_options_header.loop1
+    simp only [ih, List.mapM_cons, optionSegment_eq (key, value), quote_header_value_eq]
+    cases value with
+    | none =>
+      simp only []
+      cases h : rest.mapM Http.optionSegment <;> simp [bind, Except.bind, pure, Except.pure]
+    | some v =>
+      simp only [kvText]
+      have := star_step key
+        (match rest.mapM Http.optionSegment with
+          | .ok segs => (Pre.Loop.fall (acc ++ [key ++ ['='] ++ v] ++ segs.filterMap id) : Pre.Loop (Except String Str) (List Str))
+          | .error e => .ret (.error e))
+        (match rest.mapM Http.optionSegment with
+          | .ok segs => (Pre.Loop.fall (acc ++ [key ++ ['='] ++ Http.quoteHeaderValue v] ++ segs.filterMap id) : Pre.Loop (Except String Str) (List Str))
+          | .error e => .ret (.error e))
+        (fun x => .ret (.error x))
+      refine Eq.trans this ?_
+      cases key.getLast? with
+      | none => simp [bind, Except.bind, Except.map]
+      | some l =>
+        by_cases hl : l = '*' <;> cases h : rest.mapM Http.optionSegment <;> simp [hl, bind, Except.bind, pure, Except.pure, Except.map]
+
+/-- `dump_options_header(header, options)`, as translated from the current source (the optional
+leading header, the loop above, the `"; "` join), prints - or raises IndexError exactly as - the
+model's `dumpOptionsHeader`, for every header (or None) and every options dict. -/
+theorem dump_options_header_eq (header : Option (List Char)) (options : List (List Char × Option (List Char))) :
+    Gen.PyFns_Http.dump_options_header header options = Http.dumpOptionsHeader header options := by
+  unfold Gen.PyFns_Http.dump_options_header Http.dumpOptionsHeader
+  have e : ([';', ' '] : Str) = "; ".toList := by decide
+  cases header <;> simp only [Pre.dictItems, dump_options_header_loop_eq, List.nil_append] <;>
+    cases h : options.mapM Http.optionSegment <;>
+    simp only [bind, Except.bind, pure, Except.pure, e, join_intercalate, List.nil_append, List.cons_append]
+
+/-- `quote_etag(etag, weak)`, as translated from the current source (the `'"' in etag` refusal, the
+quotes, the `W/` prefix), equals the model's `quoteEtag` - value or ValueError - for every text and
+both values of `weak`. -/
+theorem quote_etag_eq (etag : List Char) (weak : Bool) :
+    Gen.PyFns_Http.quote_etag etag weak = Http.quoteEtag etag weak := by
+  unfold Gen.PyFns_Http.quote_etag Http.quoteEtag
+  rw [contains_singleton]
+  cases weak <;> by_cases h : etag.contains '"' = true <;> simp [h]
+
+/-- C06 `etag_roundtrip` with the translated `quote_etag`: un-quoting what the regenerated function
+printed gives `(etag, weak)` back for every tag without `"`. -/
+theorem etag_roundtrip_translated (e : List Char) (weak : Bool) (hq : e.contains '"' = false) :
+    (Gen.PyFns_Http.quote_etag e weak).map Http.unquoteEtag = .ok (some (e, weak)) := by
+  rw [quote_etag_eq]; exact Http.unquote_quoteEtag e weak hq
+
+example : ("a b".toList).contains '"' = false := by decide
+
+/-- `parse_set_header(value)`, as translated from the current source (a missing or empty value
+gives `HeaderSet(None)`, anything else `HeaderSet(parse_list_header(value))`; the result is the
+`headers` argument handed to the constructor), never raises and hands over exactly the model's
+`parseSetHeader` list, for every value including `None`. -/
+theorem parse_set_header_eq (value : Option (List Char)) :
+    Gen.PyFns_Http.parse_set_header value () =
+      .ok (match value with
+        | none => none
+        | some v => if v.isEmpty then none else some (Http.parseSetHeader v)) := by
+  unfold Gen.PyFns_Http.parse_set_header Http.parseSetHeader
+  cases value with
+  | none => rfl
+  | some v => by_cases h : v.isEmpty = true <;> simp [h, parse_list_header_eq]
+
+/-! ### Age, Content-Range (translated in round 3; `Gen/PyFns_HttpDict.lean`) -/
+
+/-- `_plain_int`, as translated from the current source, is the prelude's `plainInt` (restated here
+for the Content-Range proofs; see Props/C09T, C11T). -/
+theorem plain_int_eq (v : List Char) : Gen.PyFns_Internal.plain_int v = Pre.plainInt v := by
+  unfold Gen.PyFns_Internal.plain_int Pre.plainInt Pre.plainIntReFullmatch Pre.pyIntPlain Pre.strip
+  cases h : isPlainIntText (Py.strip v) <;> simp [h]
+
+/-- `parse_age(value)`, as translated from the current source (missing / empty value, `int(value)`
+with `except ValueError`, the negative test, `timedelta(seconds=…)` with `except OverflowError`; the
+timedelta is represented by its seconds), never raises and returns exactly the model's `parseAge`,
+for every value including `None`. `int()` is C06's hand model `pyInt`. -/
+theorem parse_age_eq (value : Option (List Char)) :
+    Gen.PyFns_HttpDict.parse_age value =
+      match value with
+      | none => .ok none
+      | some v => (Http.parseAge v).map (Option.map Int.ofNat) := by
+  cases value with
+  | none => rfl
+  | some v =>
+    unfold Gen.PyFns_HttpDict.parse_age Http.parseAge Gen.PyFns_HttpDict.timedeltaSeconds
+    simp only []
+    by_cases he : v.isEmpty = true
+    · simp [he, Except.map, pure, Except.pure]
+    · simp only [he, Bool.false_eq_true, if_false]
+      cases hp : Http.pyInt v with
+      | error e =>
+        have := pyInt_error v e hp
+        subst this
+        simp [Http.catching, Except.map, bind, Except.bind, pure, Except.pure]
+      | ok secs =>
+        simp only [Http.catching, Except.map, bind, Except.bind, pure, Except.pure]
+        by_cases hn : secs < 0
+        · simp [hn]
+        · by_cases hm : secs.toNat > Gen.Http.timedeltaMaxSeconds
+          · have : secs > (Gen.Http.timedeltaMaxSeconds : Int) := by omega
+            simp [hn, hm, this]
+          · have : ¬ secs > (Gen.Http.timedeltaMaxSeconds : Int) := by omega
+            have h3 : ¬ (secs < -86399999913600) := by omega
+            have h4 : max secs 0 = secs := by omega
+            simp [hn, hm, this, h3, h4]
+
+/-- `dump_age(age)` for an `int` (or `None`), as translated from the current source: `None` stays
+`None`, a negative age is the documented ValueError, anything else prints as the model's `dumpAge`. -/
+theorem dump_age_eq (age : Option Int) :
+    Gen.PyFns_HttpDict.dump_age age =
+      match age with
+      | none => .ok none
+      | some n => if n < 0 then .error "ValueError" else .ok (some (Http.dumpAge n.toNat)) := by
+  cases age with
+  | none => rfl
+  | some n =>
+    unfold Gen.PyFns_HttpDict.dump_age Http.dumpAge
+    by_cases h : n < 0
+    · simp [h]
+    · simp only [h, id, decide_false, Bool.false_eq_true, if_false, strOfInt_eq]
+      obtain ⟨m, rfl⟩ := Int.eq_ofNat_of_zero_le (by omega : 0 ≤ n)
+      rfl
+
+/-- C06 `age_roundtrip` on the translated pair: parsing what the regenerated `dump_age` printed gives
+the number of seconds back, for every age within timedelta's range. -/
+theorem age_roundtrip_translated (n : Nat) (hn : n ≤ Gen.Http.timedeltaMaxSeconds) :
+    (Gen.PyFns_HttpDict.dump_age (some (n : Int)) >>= Gen.PyFns_HttpDict.parse_age) = .ok (some (n : Int)) := by
+  rw [dump_age_eq]
+  have h : ¬ ((n : Int) < 0) := by omega
+  simp only [h, if_false, bind, Except.bind, parse_age_eq, Int.toNat_natCast, Http.age_roundtrip_any n hn]
+  rfl
+
+example : (5 : Nat) ≤ Gen.Http.timedeltaMaxSeconds := by decide
+
+/-- `ContentRange(units, start, stop, length)` (the constructor is pinned by the generator to
+`self.on_update = on_update; self.set(start, stop, length, units)`; `set` is translated): the object
+for a valid range, AssertionError otherwise. -/
+theorem content_range_init_eq (u : Option (List Char)) (s e l : Option Int) :
+    Gen.PyFns_HttpDict.content_range_init u s e l =
+      if Http.isByteRangeValid s e l then .ok (u, s, e, l) else .error "AssertionError" := by
+  unfold Gen.PyFns_HttpDict.content_range_init Gen.PyFns_HttpDict.content_range_set
+  simp only [is_byte_range_valid_eq]
+  by_cases h : Http.isByteRangeValid s e l = true <;> simp [h]
+
+/-- `parse_content_range_header(value)`, as translated from the current source (`None`, the
+`split(None, 1)` into units and range definition, `"/" in`, `split("/", 1)`, the `*` length or
+`_plain_int`, the `*` range, `"-" in`, `split("-", 1)`, the two `_plain_int` calls in one `try`,
+`is_byte_range_valid`, the `ContentRange` constructor with its assertion), never raises and returns
+exactly the model's `parseContentRangeHeader` (`crTup` = the object's four attributes), for every
+value including `None`. -/
+theorem parse_content_range_header_eq (value : Option (List Char)) :
+    Gen.PyFns_HttpDict.parse_content_range_header value () =
+      match value with
+      | none => .ok none
+      | some v => (Http.parseContentRangeHeader v).map (Option.map crTup) := by
+  cases value with
+  | none => rfl
+  | some v =>
+    unfold Gen.PyFns_HttpDict.parse_content_range_header Http.parseContentRangeHeader
+    have hv : (if (!v.isEmpty) = true then v else []) = v := by cases v <;> simp
+    simp only [hv, splitWsOnce_eq, Pre.strip, Http.strip, plain_int_eq, is_byte_range_valid_eq, content_range_init_eq, contains_singleton]
+    cases hs : Http.splitWs2 (Py.strip v) with
+    | error e =>
+      have := splitWs2_error _ _ hs
+      subst this
+      simp [Http.catching, Except.map, bind, Except.bind, pure, Except.pure]
+    | ok p =>
+      obtain ⟨units, rangedef⟩ := p
+      simp only [Http.catching, Except.map, bind, Except.bind, pure, Except.pure]
+      by_cases hm : '/' ∈ rangedef
+      · have hc : rangedef.contains '/' = true := by simpa using hm
+        simp only [hc, Bool.not_true, Bool.false_eq_true, if_false, PyFnsRange.splitOnce_singleton_mem rangedef '/' hm,
+          partition_eq_of_mem '/' rangedef hm, parseLength_eq]
+        generalize rangedef.takeWhile (· != '/') = rng
+        generalize (rangedef.dropWhile (· != '/')).drop 1 = ls
+        by_cases hl : ls = ['*']
+        · subst hl
+          simp only [beq_self_eq_true, if_true]
+          have := cr_tail units rng none
+          simp only [Http.catching, beq_iff_eq, Except.map, bind, Except.bind, pure, Except.pure] at this ⊢
+          exact this
+        · simp only [hl, beq_iff_eq, if_false]
+          cases hp : plainInt ls with
+          | error e => simp
+          | ok l =>
+            have := cr_tail units rng (some l)
+            simp only [Http.catching, beq_iff_eq, Except.map, bind, Except.bind, pure, Except.pure] at this ⊢
+            exact this
+      · have hc : rangedef.contains '/' = false := by simpa using hm
+        simp [hc, hm]
 
 example : Gen.PyFns_Http.quote_header_value "a\"b".toList true = "\"a\\\"b\"".toList := by decide
 
